@@ -9,6 +9,7 @@ func main() {
 		Name: "disksim",
 		Props: map[string]sim.PropSpec{
 			"C13": {Run: runC13, Modes: []string{"faultfree", "faults"}},
+			"C15": {Run: runC15, Modes: []string{"written", "graph", "written"}},
 		},
 	})
 }
